@@ -35,6 +35,10 @@ SetTheta(k) == /\ Len(hist) < MaxDepth /\ params' = [params EXCEPT !.theta = k] 
 \* the caller modifies, in place, the array it passed as `positions`: the aperture owns a copy, so nothing changes
 CallerMutates == /\ Len(hist) < MaxDepth /\ UNCHANGED <<params, stamp>>
                  /\ Log([op |-> "caller_mutates", arg |-> 0]) /\ Emitting
+\* the aperture is used with a bad-pixel mask (area_overlap / do_photometry with mask=...) and the caller edits, in place, a mask
+\* array returned by to_mask(): neither leaves anything behind in the aperture
+UsedWithMask == /\ Len(hist) < MaxDepth /\ UNCHANGED <<params, stamp>>
+                /\ Log([op |-> "used_with_mask", arg |-> 0]) /\ Emitting
 Read(r) == /\ Len(hist) < MaxDepth /\ r \notin DOMAIN stamp
            /\ stamp' = stamp @@ (r :> params) /\ UNCHANGED params
            /\ Log([op |-> "read", arg |-> r]) /\ Emitting
@@ -45,6 +49,7 @@ Init == /\ params \in [pos : PosIds, shift : {0}, size : SizeIds, theta : ThetaI
 Next == \/ \E k \in PosIds : SetPos(k)
         \/ IAddPos
         \/ CallerMutates
+        \/ UsedWithMask
         \/ \E k \in SizeIds : SetSize(k)
         \/ \E k \in ThetaIds : SetTheta(k)
         \/ \E r \in Reads : Read(r)
